@@ -1,6 +1,6 @@
 """C03 — a cluster start without UNSAFE_TO_BREAK is a safe place to break the text."""
 import os
-import vlib, bufgen
+import vlib, bufgen, gsubgen
 import flagslib as F
 
 MODULE = "RbModel.Props.C03"
@@ -211,6 +211,54 @@ def break_fraction_search(ctx, shim, r, nfonts, per_font, pc, pt):
                        classify=F.fraction_known_class)
 
 
+def gsub_flag_groups(ctx, shim, r, nfonts, per_font):
+    """request groups of the `gsub` command (the GSUB interpreter of the crate through its hook vs the Lean model Gsub.lean,
+    which contains every unsafe_to_break / unsafe_to_concat call site of the interpreter and delete_glyph / merge_clusters of
+    Buf.lean) on the synthetic fonts of the metamorphic streams, with buffers as the pipeline hands them over in BOTH orders:
+    ascending clusters and — text shaped against the script's direction — descending clusters; flag bits of earlier
+    passes already in some masks; PRODUCE_UNSAFE_TO_CONCAT mostly on."""
+    import fontbuild
+    fonts, g1 = [], []
+    i = 0
+    while len(fonts) < nfonts:
+        rec, _, _ = F.synth_recipe(r, F.SYNTH_PROFILES[i % len(F.SYNTH_PROFILES)])
+        i += 1
+        try:
+            hexf = fontbuild.hexfont(rec)
+        except fontbuild.FontBuildError:
+            continue
+        fid = f"GF{len(fonts)}"
+        fonts.append((fid, rec, hexf))
+        g1.append([f"font {fid} {hexf}", f"planinfo {fid} l DFLT - -"])
+    o1 = vlib.run_groups(shim, g1)
+    groups = []
+    for (fid, rec, hexf), o in zip(fonts, o1):
+        if o[0] != "ok" or not o[1].startswith("ok"):
+            continue
+        maps = o[1].split()[1]
+        if maps == "-":
+            mt = "0"
+        else:
+            ms = [m.split(":") for m in maps.split(",")]
+            mt = str(len(ms)) + " " + " ".join(" ".join(m[1:]) for m in ms)
+        ft = gsubgen.flatten(rec)
+        lines = [f"font {fid} {hexf}"]
+        for _ in range(per_font):
+            st = gsubgen.rand_buffer(r, rec)
+            n = st["n"]
+            items = st["I"][:n]
+            cl = [x[2] for x in items]
+            if r.chance(1, 2):
+                cl = cl[::-1]                                   # descending: the reversed buffer
+            fl = [r.choice([0, 0, 0, 1, 2, 3]) for _ in items]
+            st["I"] = [(g, (m & 0xFFFFFFF8) | f, c, a, b) for (g, m, _, a, b), c, f in zip(items, cl, fl)] + st["I"][n:]
+            st["F"] = r.choice([0, 0x40, 0x40, 0x40])
+            st["sc"] = 0x20 if any(fl) else 0
+            lines.append(f"gsub {fid} l DFLT - - 1 FONT {ft} MAPS {mt} BUF {bufgen.state_str(st)}")
+        groups.append(lines)
+    return groups
+
+
 def carry_search(ctx, shim, r, n, pc, pt):
     """the flag-preservation contract of delete_glyph / delete_glyphs_inplace / merges as an oracle on the crate alone"""
     lines = [F.carry_walk(r, pc, pt) for _ in range(n)]
@@ -257,6 +305,9 @@ def run(ctx):
     rc = ctx.rng("carry")
     ctx.correspond("flags-carry", lines=[F.carry_walk(rc, pc, pt) for _ in range(ctx.budget(10000, 200000))],
                    classify=F.classify_walk, canon=F.canon_panic)
+    import C06 as C06mod
+    ctx.correspond("gsub-flags", groups=gsub_flag_groups(ctx, shim, ctx.rng("gsub-flags"), ctx.budget(150, 3000), 10),
+                   classify=C06mod.gsub_classify, canon=F.canon_panic, only=lambda ln: ln.startswith("gsub "))
     interior_search(ctx, shim, ctx.rng("interior"), ctx.budget(20000, 300000))
     carry_search(ctx, shim, ctx.rng("carry-exact"), ctx.budget(10000, 200000), pc, pt)
     break_synth_search(ctx, shim, ctx.rng("break-synth"), ctx.budget(200, 4000), 12, pc, pt)
